@@ -518,6 +518,27 @@ func c01Dual(c *Ctx) {
 			kind := "none"
 			for _, st := range cc.Body {
 				s := core.ExprStr2(st)
+				// structural form of the 4-byte little-endian read: binary.LittleEndian.Uint32(match.Value[:N]) with constant N == 4
+				ast.Inspect(st, func(k ast.Node) bool {
+					call, ok := k.(*ast.CallExpr)
+					if !ok || len(call.Args) != 1 || nospace(core.ExprStr(call.Fun)) != "binary.LittleEndian.Uint32" {
+						return true
+					}
+					se, ok := ast.Unparen(call.Args[0]).(*ast.SliceExpr)
+					if !ok || se.High == nil || !strings.HasSuffix(core.ExprStr(se.X), ".Value") {
+						return true
+					}
+					lowZero := se.Low == nil
+					if se.Low != nil {
+						if tv, has := f.Info().Types[se.Low]; has && tv.Value != nil && tv.Value.String() == "0" {
+							lowZero = true
+						}
+					}
+					if tv, has := f.Info().Types[se.High]; has && tv.Value != nil && tv.Value.String() == "4" && lowZero {
+						kind = "u32le"
+					}
+					return true
+				})
 				switch {
 				case strings.Contains(s, "binary.LittleEndian.Uint32(match.Value[:4])"):
 					kind = "u32le"
@@ -736,11 +757,13 @@ func c01Facets(c *Ctx) {
 						ast.Inspect(st, func(k ast.Node) bool {
 							switch x := k.(type) {
 							case *ast.IndexExpr:
-								if core.ExprStr(x.X) == "domainMatchBitmap" && onlyKey(x.Index) && isBinLit(x.Index, token.QUO, "32") {
+								ix := throughSingleDef(info, f.Body, x.Index)
+								if core.ExprStr(x.X) == "domainMatchBitmap" && onlyKey(ix) && isBinLit(ix, token.QUO, "32") {
 									idxOK = true
 								}
 							case *ast.BinaryExpr:
-								if x.Op == token.SHR && onlyKey(x.Y) && isBinLit(x.Y, token.REM, "32") {
+								sh := throughSingleDef(info, f.Body, x.Y)
+								if x.Op == token.SHR && onlyKey(sh) && isBinLit(sh, token.REM, "32") {
 									shiftOK = true
 								}
 							}
@@ -1083,4 +1106,51 @@ func paramIndex(f *core.Func, obj types.Object) (int, bool) {
 		}
 	}
 	return 0, false
+}
+
+
+// throughSingleDef replaces an identifier that names a local with exactly one assignment in body
+// (a plain or parallel := / =) by the expression assigned to it; anything else is returned as is.
+func throughSingleDef(info *types.Info, body ast.Node, e ast.Expr) ast.Expr {
+	id, ok := ast.Unparen(e).(*ast.Ident)
+	if !ok {
+		return e
+	}
+	obj := info.ObjectOf(id)
+	if v, isVar := obj.(*types.Var); !isVar || v.IsField() {
+		return e
+	}
+	var rhs ast.Expr
+	n := 0
+	ast.Inspect(body, func(m ast.Node) bool {
+		switch s := m.(type) {
+		case *ast.AssignStmt:
+			for i, l := range s.Lhs {
+				if lid, ok := ast.Unparen(l).(*ast.Ident); ok && info.ObjectOf(lid) == obj {
+					n++
+					if len(s.Lhs) == len(s.Rhs) && (s.Tok == token.DEFINE || s.Tok == token.ASSIGN) {
+						rhs = s.Rhs[i]
+					} else {
+						rhs = nil
+						n++
+					}
+				}
+			}
+		case *ast.IncDecStmt:
+			if lid, ok := ast.Unparen(s.X).(*ast.Ident); ok && info.ObjectOf(lid) == obj {
+				n += 2
+			}
+		case *ast.RangeStmt:
+			for _, l := range []ast.Expr{s.Key, s.Value} {
+				if lid, ok := l.(*ast.Ident); ok && info.ObjectOf(lid) == obj {
+					n += 2
+				}
+			}
+		}
+		return true
+	})
+	if n == 1 && rhs != nil {
+		return rhs
+	}
+	return e
 }
